@@ -211,3 +211,67 @@ Proof.
     + intros H11. apply op_code_call in H11. rewrite Hi in H11. destruct (Hcall H11) as [q1 ->]. auto.
   - right. split; [exact Hout|]. intros H11. apply op_code_call in H11. congruence.
 Qed.
+
+Lemma entry_resolves_call M B gruns a l :
+  entry_resolves M B gruns a l -> byte_at B a = 11 ->
+  exists f r, gdeepest gruns (f, r) a /\ fst l = fi_ns f /\ is_call_card (r_card r) = true /\ resolves_to M l (r_card r).
+Proof.
+  intros [(f & r & Hd & Hns & _ & _ & Hc)|[_ Hn]] H11; [|contradiction].
+  destruct (Hc H11) as [q1 q2]. exists f, r. auto.
+Qed.
+
+(* ------------------------------------------------------------------ the run-time half joined *)
+Import C15Link.
+
+(* the location that the trace of [to_vm B] holds for address [a] *)
+Definition entry_at (B : compiled) (a : N) : option loc :=
+  option_map (trace_loc B) (Vm.assoc a (Vm.p_trace (to_vm B))).
+
+Lemma assoc_index_in : forall l i a id,
+  Vm.assoc a (index_trace i l) = Some id -> exists k e, id = i + N.of_nat k /\ nth_error l k = Some (a, e).
+Proof.
+  induction l as [|[b eb] r IH]; intros i a id H; cbn [index_trace Vm.assoc] in H; [discriminate|].
+  destruct (N.eqb_spec a b) as [->|Hne].
+  - injection H as <-. exists 0%nat, eb. split; [cbn; lia | reflexivity].
+  - destruct (IH _ _ _ H) as (k & e & -> & Hn). exists (S k), e. split; [lia | exact Hn].
+Qed.
+Lemma entry_at_in B a l : entry_at B a = Some l -> In (a, l) (p_trace B).
+Proof.
+  unfold entry_at. cbn [to_vm Vm.p_trace]. destruct (Vm.assoc a _) as [id|] eqn:E; [|discriminate].
+  cbn [option_map]. intros H. injection H as <-.
+  destruct (assoc_index_in _ _ _ _ E) as (k & e & -> & Hn). unfold trace_loc.
+  rewrite N.add_0_l, Nat2N.id, (nth_error_nth _ _ _ Hn). cbn [snd]. eapply nth_error_In; eauto.
+Qed.
+Lemma map_opt_list {A B} (g : A -> B) l : map g (Vm.opt_list l) = Vm.opt_list (map (option_map g) l).
+Proof. induction l as [|[x|] r IH]; cbn [Vm.opt_list map option_map]; [reflexivity | f_equal; exact IH | exact IH]. Qed.
+
+Theorem error_trace_resolves (F : Vm.fops) (bld : Vm.build) (budget : nat) M o B s e t s' :
+  compile M o = COk B -> N.of_nat (length (p_bytecode B)) <= two32 ->
+  C15Proofs.frames_ok (C15Proofs.src_ok (to_vm B)) s ->
+  Vm.run F bld budget (to_vm B) s = (Vm.OErr e t, s') ->
+  (t = [] /\ e = Vm.ECallStackOverflow /\ Vm.push_frame s (Vm.mkFrame 0 0 0 None) = None) \/
+  exists gruns a s_fail s_start s0,
+    gruns_real M o B gruns /\
+    map (trace_loc B) t =
+      Vm.opt_list (entry_at B a :: map (fun f => entry_at B (Vm.fr_src f)) (Vm.st_calls s_fail)) /\
+    (forall l, entry_at B a = Some l -> entry_resolves M B gruns a l) /\
+    Forall (fun f => (Vm.fr_src f = 0 \/ byte_at B (Vm.fr_src f) = 11 \/
+                      exists label, Vm.assoc label (Vm.p_labels (to_vm B)) = Some (Vm.fr_src f)) /\
+                     forall l, entry_at B (Vm.fr_src f) = Some l -> entry_resolves M B gruns (Vm.fr_src f) l)
+           (Vm.st_calls s_fail) /\
+    Vm.push_frame s (Vm.mkFrame 0 0 0 None) = Some s_start /\
+    C15Proofs.reaches F bld (to_vm B) (Vm.run_at F bld (to_vm B) false (N.of_nat budget) (pred Vm.max_depth)) 0
+                      (Vm.set_rem s_start (N.of_nat budget)) a s0 /\
+    C15Proofs.fails_at F bld (to_vm B) (Vm.run_at F bld (to_vm B) false (N.of_nat budget) (pred Vm.max_depth))
+                       a s0 e s_fail.
+Proof.
+  intros Hc Hsz Hfr Hrun.
+  destruct (compile_trace_resolves M o B Hc Hsz) as (gruns & Hreal & Hall).
+  destruct (C15Proofs.error_trace_shape F bld budget Hfr Hrun)
+    as [Hl|(a & s_fail & s_start & s0 & Ht & Hsrc & Hpf & Hre & Hfa)]; [left; exact Hl|].
+  right. exists gruns, a, s_fail, s_start, s0. split; [exact Hreal|]. split.
+  { rewrite Ht, map_opt_list. cbn [map]. rewrite map_map. reflexivity. }
+  split; [intros l Hl; apply Hall, entry_at_in, Hl|]. split; [|auto].
+  eapply Forall_impl; [|exact Hsrc]. intros f Hs. split; [exact Hs|].
+  intros l Hl. apply Hall, entry_at_in, Hl.
+Qed.
